@@ -151,6 +151,122 @@ pub fn features(p: &Pos, legal: &[RMove], pseudo_len: usize) -> Feat {
     }
 }
 
+/// Rare rule corners a position exercises (C01 evidence: shows that the generators reach them).
+/// `pseudo` is the reference model's pseudo-legal list (castling already filtered for attacks), `legal` its legal subset.
+pub fn corners(p: &Pos, pseudo: &[RMove], legal: &[RMove], ev: &mut Ev) {
+    let w = p.white;
+    let check = p.in_check(w);
+    let is_legal = |m: &RMove| legal.contains(m);
+    let lower = |s: u8| p.b[s as usize].to_ascii_lowercase();
+    // en passant
+    for m in pseudo.iter().filter(|m| m.kind == K_EP) {
+        if !is_legal(m) {
+            ev.class(if check { "corner_ep_capture_does_not_answer_check" } else { "corner_ep_capture_illegal_by_discovered_attack" });
+            if !check && p.king_sq(w).map(|k| k / 8 == m.from / 8).unwrap_or(false) {
+                ev.class("corner_ep_capture_illegal_both_pawns_leave_the_kings_rank");
+            }
+        } else if check {
+            ev.class("corner_ep_capture_answers_check");
+        }
+    }
+    // promotions
+    let mut promo_illegal = false;
+    let mut promo_in_check = false;
+    for m in pseudo.iter().filter(|m| m.promo == b'n') {
+        if !is_legal(m) {
+            promo_illegal = true;
+        } else if check {
+            promo_in_check = true;
+        }
+    }
+    if promo_illegal {
+        ev.class("corner_promotion_pseudo_legal_but_illegal");
+    }
+    if promo_in_check {
+        ev.class(if legal.iter().any(|m| m.promo != 0 && p.is_capture(*m)) { "corner_check_answered_by_capture_promotion" } else { "corner_check_answered_by_promotion" });
+    }
+    // castling
+    let home = if w { 4u8 } else { 60 };
+    let rook = if w { b'R' } else { b'r' };
+    let (ks, qs) = if w { (p.cr[0], p.cr[1]) } else { (p.cr[2], p.cr[3]) };
+    let king_home = p.b[home as usize] == if w { b'K' } else { b'k' };
+    if king_home && ks && p.b[(home + 3) as usize] == rook && p.b[(home + 1) as usize] == b'.' && p.b[(home + 2) as usize] == b'.' {
+        if !legal.iter().any(|m| m.kind == K_OO) {
+            ev.class(if check { "corner_castling_short_refused_in_check" } else { "corner_castling_short_refused_path_attacked" });
+        } else if p.attacked(home + 3, !w) {
+            ev.class("corner_castling_short_legal_with_rook_attacked");
+        }
+    }
+    if king_home && qs && p.b[(home - 4) as usize] == rook && (1..=3).all(|d| p.b[(home - d) as usize] == b'.') {
+        if !legal.iter().any(|m| m.kind == K_OOO) {
+            ev.class(if check { "corner_castling_long_refused_in_check" } else { "corner_castling_long_refused_path_attacked" });
+        } else {
+            if p.attacked(home - 3, !w) {
+                ev.class("corner_castling_long_legal_with_b_file_attacked");
+            }
+            if p.attacked(home - 4, !w) {
+                ev.class("corner_castling_long_legal_with_rook_attacked");
+            }
+        }
+    }
+    // pins: a piece (not the king) with legal and illegal moves while not in check moves along its pin line
+    if !check && pseudo.len() > legal.len() {
+        let mut along = false;
+        let mut takes_pinner = false;
+        let mut frozen = false;
+        let mut seen_from = [false; 64];
+        for m in pseudo {
+            if seen_from[m.from as usize] || lower(m.from) == b'k' || m.kind == K_EP {
+                continue;
+            }
+            seen_from[m.from as usize] = true;
+            let mine: Vec<&RMove> = pseudo.iter().filter(|x| x.from == m.from && x.kind != K_EP).collect();
+            let ok: Vec<&&RMove> = mine.iter().filter(|x| is_legal(x)).collect();
+            if ok.len() < mine.len() {
+                if ok.is_empty() {
+                    frozen = true;
+                } else {
+                    along = true;
+                    if ok.iter().any(|x| p.is_capture(***x)) {
+                        takes_pinner = true;
+                    }
+                }
+            }
+        }
+        if along {
+            ev.class("corner_pinned_piece_moves_along_the_pin_line");
+        }
+        if takes_pinner {
+            ev.class("corner_pinned_piece_captures_its_pinner");
+        }
+        if frozen {
+            ev.class("corner_pinned_piece_without_any_move");
+        }
+    }
+    // king steps that look safe on the current board but stay on the checking slider's ray
+    if check {
+        for m in pseudo.iter().filter(|m| lower(m.from) == b'k' && m.kind == K_NORMAL) {
+            if !is_legal(m) && !p.attacked(m.to, !w) {
+                ev.class("corner_king_retreat_along_the_checking_ray");
+                break;
+            }
+        }
+        if p.checkers(w) >= 2 && !legal.is_empty() {
+            ev.class("corner_double_check_with_escape");
+        }
+        if legal.iter().any(|m| lower(m.from) != b'k' && !p.is_capture(*m) && m.kind != K_EP) {
+            ev.class("corner_check_answered_by_interposition");
+        }
+    }
+    // king captures a defended / undefended piece
+    if pseudo.iter().any(|m| lower(m.from) == b'k' && p.is_capture(*m) && !is_legal(m)) {
+        ev.class("corner_king_may_not_capture_defended_piece");
+    }
+    if legal.len() == 1 {
+        ev.class("corner_single_legal_move");
+    }
+}
+
 impl PosWalk {
     fn id_str(&self) -> &'static str {
         match self.which {
@@ -219,6 +335,7 @@ impl PosWalk {
                     }
                 }
                 ev.class_n("unchecked_extras_verified_self_check", extras);
+                corners(p, &pseudo, &legal, ev);
                 if (g.player() == eng::Player::White) != p.white {
                     return Err(Fail::new("side-to-move", format!("position {}", p.fen4())));
                 }
